@@ -61,6 +61,8 @@ pub fn intvec_case<T: Elem>(cx: &mut Ctx, vals: &[T], shape: &str, ctors: &[usiz
             Err(p) => { obs.push("[(-1)]%Z".into()); cx.sum.fail(&cell, class, cj.clone(), &format!("constructor panicked: {}", p)); }
             Ok(Err(_)) => { obs.push("[1]%Z".into()); cx.sum.dist("intvec_build_refused"); }
             Ok(Ok(iv)) => {
+                // every third vector is read through a clone whose original is gone (Clone copies strategy, data and index)
+                let iv = if (n + ctor) % 3 == 0 { cx.sum.dist("intvec_read_through_clone"); let c = iv.clone(); drop(iv); c } else { iv };
                 let rr = guarded(|| {
                     let got: Vec<Option<T>> = idx.iter().map(|&i| iv.get(i)).collect();
                     let past: Vec<Option<T>> = past_idx.iter().map(|&i| iv.get(i)).collect();
@@ -156,14 +158,16 @@ pub fn gen_intvec<T: Elem>(cx: &mut Ctx, r: &mut Rng, size_class: u32) {
 /// (min-max vs delta vs block based, chosen by estimated size) runs, shaped so that the block layout wins:
 /// far-apart block bases, one-bit offsets.  Always replayed in the Coq model (about ten seconds there).
 pub fn full_analysis_case<T: Elem>(cx: &mut Ctx, r: &mut Rng) {
-    let n = 10001 + r.below(300) as usize;
+    // read through a clone (intvec_case does so when (n + ctor) % 3 == 0): the block layout is the one with an index to copy
+    let ctor = if r.chance(1, 2) { 0usize } else { 2 };
+    let mut n = 10001 + r.below(300) as usize; while (n + ctor) % 3 != 0 || n % 128 == 0 { n += 1; }
     let hi = T::hi(); let lo = T::lo().max(0);
     let last_block = (n - 1) / 128;
     let mut base = lo;
     // the short last block carries the largest offsets: the offset width has to come from it
     let vals: Vec<T> = (0..n).map(|i| { if i % 128 == 0 { base = lo + (r.next() as u128 % ((hi - lo - 3) as u128)) as i128; }
         T::from_i128(base + if i / 128 == last_block { r.below(4) as i128 } else { r.below(2) as i128 }) }).collect();
-    intvec_case::<T>(cx, &vals, "full_analysis_blocks", &[if r.chance(1, 2) { 0 } else { 2 }], 1, r);
+    intvec_case::<T>(cx, &vals, "full_analysis_blocks", &[ctor], 1, r);
 }
 
 /// Fields of 59..63 bits whose last field reaches into the very last byte of the 16-byte aligned buffer through
@@ -182,8 +186,55 @@ pub fn tight_tail_case<T: Elem>(cx: &mut Ctx, r: &mut Rng, coq: u64) {
     intvec_case::<T>(cx, &vals, "tight_tail", &[0, 2], coq, r);
 }
 
+/// The unique minimum / maximum of the input at the positions where the chunked range scans end (multiples of 8 and 16, the 128-element
+/// switch of analyze_range_bulk_optimized, the first and the last elements): a scan that drops a remainder takes too narrow a width.
+pub fn minmax_position_family<T: Elem>(cx: &mut Ctx, r: &mut Rng) {
+    let lo = T::lo(); let hi = T::hi();
+    for &n in &[5usize, 8, 9, 16, 17, 33, 64, 65, 127, 128, 129, 130, 144, 145, 257, 1025, 2049] {
+        let mut pos: Vec<usize> = vec![0, 1, n - 1, n - 2, ((n / 8) * 8).min(n - 1), ((n / 16) * 16).min(n - 1), ((n / 8) * 8).saturating_sub(1), 127usize.min(n - 1), 128usize.min(n - 1)]; pos.sort(); pos.dedup();
+        for &p in &pos { for up in [true, false] {
+            let mid: i128 = (lo + hi) / 2 + (r.below(5) as i128);
+            let k = r.range(3, T::BITS as u64 - 2) as u32;
+            let mut v: Vec<i128> = (0..n).map(|_| mid + r.below(4) as i128).collect();
+            v[p] = if up { (mid + (1i128 << k)).min(hi) } else { (mid - (1i128 << k)).max(lo) };
+            let vals: Vec<T> = v.into_iter().map(T::from_i128).collect();
+            intvec_case::<T>(cx, &vals, "minmax_position", &[0, 2], 0, r);
+        } }
+    }
+}
+
+/// The sizes at which from_slice leaves the small-dataset heuristic for the full analysis: more than 10000 elements AND more than
+/// 16 KiB of input (17 * 1024 bytes when truncated to KiB), i.e. 17408 elements of one byte, 10001 elements of the wider types.
+pub fn analysis_threshold_family<T: Elem>(cx: &mut Ctx, r: &mut Rng) {
+    let thr = if T::BITS == 8 { 17 * 1024 } else { 10001 };
+    for n in [thr - 1, thr, thr + 1] { for shape in [9u64, 5, 7, 2] {
+        let (vals, _) = gen_vals::<T>(r, n, shape);
+        intvec_case::<T>(cx, &vals, "analysis_threshold", &[0, 2], 0, r);
+    } }
+}
+
+/// IntVec::new() / Default: an empty vector; and the element conversions of PackedInt the containers are generic over
+/// (to_u64 / from_u64 and to_i64 / from_i64 are inverse on the type, max_value / min_value are the type's extremes)
+pub fn empty_constructors<T: Elem>(cx: &mut Ctx) {
+    let cell = format!("IntVec<{}>/from_slice", T::NAME);
+    for x in [T::lo(), T::lo() + 1, -1i128, 0, 1, T::hi() / 2, T::hi() / 2 + 1, T::hi() - 1, T::hi()] {
+        if x < T::lo() { continue; }
+        let v = T::from_i128(x);
+        if T::from_u64(v.to_u64()) != v || T::from_i64(v.to_i64()) != v || T::max_value().to_i128() != T::hi() || T::min_value().to_i128() != T::lo() || T::bit_width() as u32 != T::BITS {
+            cx.sum.fail(&cell, None, json!({"cell": "intvec", "type": T::NAME, "ctor": 0, "values": [x.to_string()]}), &format!("PackedInt conversions of {} do not return the value", x));
+        }
+    }
+    cx.sum.eval(&cell, &format!("{} new/default", cell), false);
+    for (k, iv) in [IntVec::<T>::new(), IntVec::<T>::default(), IntVec::<T>::new().clone()].iter().enumerate() {
+        if iv.len() != 0 || !iv.is_empty() || iv.get(0).is_some() || iv.get(usize::MAX).is_some() {
+            cx.sum.fail(&cell, None, json!({"cell": "intvec", "type": T::NAME, "ctor": 0, "values": []}), &format!("empty constructor #{}: len {} get(0) {:?}", k, iv.len(), iv.get(0)));
+        }
+    }
+}
+
 /// Enumerated: every sequence of length <= 4 over {0, 1, MAX-1, MAX, MIN} of the type.
 pub fn enum_small<T: Elem>(cx: &mut Ctx, r: &mut Rng) {
+    empty_constructors::<T>(cx);
     let lo = T::lo(); let hi = T::hi();
     let mut alpha: Vec<i128> = vec![0, 1, hi - 1, hi, lo]; alpha.sort(); alpha.dedup();
     let a = alpha.len();
